@@ -87,6 +87,8 @@ type c13Case struct {
 	Path        string    `json:"target_path"`
 	Src         c13Source `json:"source"`
 	UseEnv      bool      `json:"flags_via_environment"`
+	// IDSpelling: the id list as written on the command line when it is not the compact JSON of IDs
+	IDSpelling string `json:"ids_as_written,omitempty"`
 	// ExplicitFalse: options that are off are not left out but given with the value false (-pl=false / KEEPPOINTSANDLINES=false)
 	ExplicitFalse bool `json:"off_flags_given_as_false,omitempty"`
 }
@@ -257,6 +259,9 @@ func c13One(texel, work string, shard int, c c13Case, srcCache map[string]string
 	}
 	before := listFiles(outDir)
 	idsJSON, _ := json.Marshal(c.IDs)
+	if c.IDSpelling != "" {
+		idsJSON = []byte(c.IDSpelling) // the same list written differently (legal JSON)
+	}
 	args := []string{"-s", src, "-t", filepath.Join(outDir, c.Path), "-tms", c.TMS, "-z", string(idsJSON)}
 	env := os.Environ()
 	if c.Page > 0 {
@@ -421,6 +426,14 @@ func c13Cases(thorough bool) []c13Case {
 				Src: c13Source{Tables: []string{"parcels", "regions", "pois"}, Polys: []string{"plain", "pinch", "small", "hole"}, Multis: []string{"m-two", "m-two"}, Points: 3, KeyStyle: "bigint-desc"}})
 		}
 	}
+	// L12: the id list written with white space (legal JSON), long flag names
+	for _, sp := range []string{"[5, 8]", " [5,8] ", "[ 5 ,8 ]", "[\n5,\n8\n]", "[8 , 5]"} {
+		ids := []int{5, 8}
+		if strings.Contains(sp, "8 , 5") {
+			ids = []int{8, 5}
+		}
+		cs = append(cs, c13Case{Name: "L12 id list spellings", TMS: rd, IDs: ids, IDSpelling: sp, Page: 2, Path: "out.gpkg", Src: s2b})
+	}
 	// L8: table order: every ordering of every subset of >= 2 of the four tables (polygon, multipolygon, point, line);
 	// plus sources in which one of the tables has no rows
 	{
@@ -573,6 +586,6 @@ func runC13() {
 		"states": tot.States, "transitions": tot.States, "traces_validated_against_impl": 0, "samples": tot.Samples,
 		"evaluations": tot.States, "distinct_nontrivial": tot.Nontrivial, "exhaustive": tot.Exhaustive && int(tot.States) == len(cases),
 		"runs_per_sub_lattice": tot.PerLattice,
-		"rule":                 "state = one invocation of the real texel binary; the lattice is the union of fully enumerated sub-lattices: L1 id lists (single, descending, three, duplicate) x keep x reverse x page size {1,2,default}; L2 all 8 flag combinations (command line and environment) on a source with an outside-grid feature and on an in-grid source; L3 5 target path shapes x {fresh, overwrite, pre-existing + overwrite} x ids; L7 overwrite with every non-empty proper subset of the requested targets pre-existing x three id lists; L9 all 8 flag combinations with the off options given explicitly as false (command line and environment); L10 id lists with a repeated id x {fresh, overwrite, pre-existing + overwrite}; L11 tables whose key is no rowid alias (BIGINT) stored in descending key order; L8 every ordering of every subset of >= 2 of the four table kinds, and sources with one table without rows; L4 every sequence of <= 2 polygon kinds x <= 1 (thorough 2) multipolygon kinds with line table; L6 WebMercatorQuad and WorldMercatorWGS84Quad x two id lists x keep/reverse; thorough L5 page sizes x four tables; each run is compared file by file, table by table, row by row with the reference; non-trivial = sources with at least one (multi)polygon",
+		"rule":                 "state = one invocation of the real texel binary; the lattice is the union of fully enumerated sub-lattices: L1 id lists (single, descending, three, duplicate) x keep x reverse x page size {1,2,default}; L2 all 8 flag combinations (command line and environment) on a source with an outside-grid feature and on an in-grid source; L3 5 target path shapes x {fresh, overwrite, pre-existing + overwrite} x ids; L7 overwrite with every non-empty proper subset of the requested targets pre-existing x three id lists; L9 all 8 flag combinations with the off options given explicitly as false (command line and environment); L10 id lists with a repeated id x {fresh, overwrite, pre-existing + overwrite}; L11 tables whose key is no rowid alias (BIGINT) stored in descending key order; L12 the id list written with white space; L8 every ordering of every subset of >= 2 of the four table kinds, and sources with one table without rows; L4 every sequence of <= 2 polygon kinds x <= 1 (thorough 2) multipolygon kinds with line table; L6 WebMercatorQuad and WorldMercatorWGS84Quad x two id lists x keep/reverse; thorough L5 page sizes x four tables; each run is compared file by file, table by table, row by row with the reference; non-trivial = sources with at least one (multi)polygon",
 	})
 }
